@@ -9,6 +9,8 @@ CONSTANTS
   BatchDisabled = FALSE
   FixNotif = TRUE
   FixNonRequest = TRUE
+  FixLongWs = TRUE
+  FarChoices = {FALSE}
 INIT Init
 NEXT Next
 VIEW view
